@@ -41,6 +41,7 @@ type (
 	CQuant struct {
 		Forall bool
 		Var    string
+		VarT   string // "" (integer) or "string"
 		Lo, Hi CExpr // range [Lo, Hi); nil Lo/Hi => unbounded Int
 		Body   CExpr
 	}
@@ -274,6 +275,10 @@ func (ps *cparser) primary() CExpr {
 				ps.fail("quantifier variable expected")
 			}
 			q := &CQuant{Forall: t.s == "forall", Var: v.s}
+			if ps.peek().k == "id" && ps.peek().s == "string" {
+				ps.p++
+				q.VarT = "string"
+			}
 			if ps.peek().k == "id" && ps.peek().s == "in" {
 				ps.p++
 				ps.expect("[")
